@@ -4,7 +4,7 @@
 namespace hz {
 static const Info I = {
     "C15", 1, 122, 100000, true, true,
-    "stateful byte-decoded histories (rapidcheck) over signal<int> / signal<void>: add coroutine listener (awaits 1..4 values or until cancelled), connect callback (true n times then false), emit by value / rvalue / lvalue reference, "
+    "stateful byte-decoded histories (rapidcheck) over signal<int> / signal<void>: add coroutine listener (awaits 1..4 values or until cancelled), connect callback (true n times then false), emit by value / rvalue / lvalue reference / const lvalue / converting argument (the generic overload), "
     "copy or drop a signal/collector handle, listener subscribing from another thread (joined before, or overlapping, the next emission - generated schedules), collector called from ordinary code or from a coroutine that co_awaits the emission, awaiting a disconnected emitter, a hook-up episode (a coroutine registers through signal::hook_up, 0..4 values are emitted through the collector it was handed, the collector is dropped); "
     "finally every handle is dropped. Reference model = set of listeners waiting at each emission; after every op each listener's received sequence equals the model's (every waiting listener gets exactly that value exactly once, a re-awaiting listener misses none; "
     "a listener subscribing concurrently with an emission may or may not get that one), after the last handle died every waiting coroutine saw await_canceled_exception, callbacks were released, allocation balance 0. Domain: one collector call at a time (documented). "
